@@ -98,6 +98,33 @@ theorem C10_no_plaintext_in_tls (s : S) (buf : Bytes) (segs : List Bytes)
   rw [hc, hw, hc', hw']
   simp
 
+/-- **C10_failed_handshake_changes_nothing.**  STARTTLS accepted (220) and then a handshake that fails: the connection state
+    is exactly what it was — same session (not logged out), same greeting name and authentication state, same envelope and
+    open transfer, TLS still off — and the command reader goes on with the stream it had; only the two replies were written. -/
+theorem C10_failed_handshake_changes_nothing (s : S) (hav : s.cfg.tlsAvail = true) (hno : s.c.tls = false)
+    (t : List Bool) (hs : s.be.hs = false :: t) :
+    (handleStartTLS s).c = s.c ∧ (handleStartTLS s).w = s.w ∧ (handleStartTLS s).tlsW = s.tlsW := by
+  unfold handleStartTLS
+  have hbe : (reply s 220 ⟨2, 0, 0⟩ "Ready to start TLS").be = s.be := by unfold reply write; split <;> rfl
+  have hp : (popHs (reply s 220 ⟨2, 0, 0⟩ "Ready to start TLS")).1 = false ∧
+      (popHs (reply s 220 ⟨2, 0, 0⟩ "Ready to start TLS")).2.c = s.c ∧
+      (popHs (reply s 220 ⟨2, 0, 0⟩ "Ready to start TLS")).2.w = s.w ∧
+      (popHs (reply s 220 ⟨2, 0, 0⟩ "Ready to start TLS")).2.tlsW = s.tlsW := by
+    unfold popHs
+    simp [hbe, hs]
+    unfold reply write; split <;> simp [emit]
+  simp only [hno, hav, Bool.false_eq_true, if_false, Bool.not_true]
+  generalize popHs (reply s 220 ⟨2, 0, 0⟩ "Ready to start TLS") = p at hp
+  obtain ⟨ok, s1⟩ := p
+  obtain ⟨h1, h2, h3, h4⟩ := hp
+  simp only at h1 h2 h3 h4
+  subst h1
+  simp only [Bool.not_false, if_true]
+  refine ⟨?_, ?_, ?_⟩
+  · rw [reply_c]; simp only [emit_c, h2]
+  · rw [reply_w]; simp only [emit_w, h3]
+  · unfold reply write; split <;> simp [emit, h4]
+
 /-! ### whole connections: consequences of the ordering theorem, stated on the trace -/
 open SmtpV.Spec.Order in
 /-- **C10_upgrade_discards_session.**  On every connection, after a successful STARTTLS handshake the backend sees
